@@ -51,9 +51,11 @@ const (
 	OpSetClock // harness: set the virtual clock to arg (not a scheduling point)
 	OpSendWait // internal: sender committed and blocked in the channel
 	OpRecvWait // internal: receiver committed and blocked in the channel
+	OpTryLock  // sync.(RW)Mutex.TryLock: never blocks, reply 2 = acquired, 3 = busy
+	OpTryRLock // sync.RWMutex.TryRLock
 )
 
-var opNames = [...]string{"start", "done", "lock", "lockwait", "unlock", "rlock", "runlock", "send", "recv", "resume", "close", "yield", "now", "choose", "choosefree", "spawn", "step", "trysend", "tryrecv", "peekclock", "setclock", "sendwait", "recvwait"}
+var opNames = [...]string{"start", "done", "lock", "lockwait", "unlock", "rlock", "runlock", "send", "recv", "resume", "close", "yield", "now", "choose", "choosefree", "spawn", "step", "trysend", "tryrecv", "peekclock", "setclock", "sendwait", "recvwait", "trylock", "tryrlock"}
 
 func (o Op) String() string { return opNames[o] }
 
@@ -823,6 +825,18 @@ func (r *run) fire(i int) {
 			}
 			t.pending.op = OpRecvWait
 			return
+		}
+	case OpTryLock:
+		reply = 3
+		if l := r.lock(m.res); l.owner < 0 && l.announced < 0 && l.readers == 0 {
+			l.owner = i
+			reply = 2
+		}
+	case OpTryRLock:
+		reply = 3
+		if l := r.lock(m.res); l.owner < 0 && l.announced < 0 {
+			l.readers++
+			reply = 2
 		}
 	case OpTrySend:
 		reply = 3
